@@ -690,12 +690,12 @@ R87_EXEMPT_FILES = {"skactiveml/pool/_wrapper.py": "SubSamplingWrapper restricts
                                                    "the parallel wrapper only sizes its chunks"}
 
 
-def _is_cand_count(e, count_names):
-    if isinstance(e, ast.Call) and c01.callname(e) == "len" and e.args and base_name(e.args[0]) in CAND_NAMES \
+def _is_cand_count(e, count_names, cand_names=CAND_NAMES):
+    if isinstance(e, ast.Call) and c01.callname(e) == "len" and e.args and base_name(e.args[0]) in cand_names \
             and isinstance(e.args[0], ast.Name):
         return True
     if isinstance(e, ast.Subscript) and isinstance(e.value, ast.Attribute) and e.value.attr == "shape" \
-            and isinstance(e.value.value, ast.Name) and e.value.value.id in CAND_NAMES \
+            and isinstance(e.value.value, ast.Name) and e.value.value.id in cand_names \
             and isinstance(e.slice, ast.Constant) and e.slice.value == 0:
         return True
     if isinstance(e, ast.Name) and isinstance(e.ctx, ast.Load) and e.id in count_names:
@@ -712,17 +712,26 @@ def check_candidate_count_uses(p, report, funcs):
         for x in ast.walk(f.node):
             for ch in ast.iter_child_nodes(x):
                 parents[ch] = x
+        # role, not name: whatever is bound from _transform_candidates(...) describes the candidates;
+        # parameters keep the conventional names (candidates, X_cand, mapping)
+        cand_names = {a for a in f.all_param_names() if a in CAND_NAMES}
+        for x in ast.walk(f.node):
+            if isinstance(x, ast.Assign) and isinstance(x.value, ast.Call) and c01.callname(x.value) == "_transform_candidates":
+                for t in x.targets:
+                    for e_ in (t.elts if isinstance(t, (ast.Tuple, ast.List)) else [t]):
+                        if isinstance(e_, ast.Name):
+                            cand_names.add(e_.id)
         # locals that hold the count: n = len(X_cand) (single binding)
         count_names = set()
         for x in ast.walk(f.node):
             if isinstance(x, ast.Assign) and len(x.targets) == 1 and isinstance(x.targets[0], ast.Name) \
-                    and _is_cand_count(x.value, set()):
+                    and _is_cand_count(x.value, set(), cand_names):
                 nm = x.targets[0].id
                 stores = [y for y in ast.walk(f.node) if isinstance(y, ast.Name) and y.id == nm and isinstance(y.ctx, ast.Store)]
                 if len(stores) == 1:
                     count_names.add(nm)
         for x in ast.walk(f.node):
-            if not _is_cand_count(x, count_names):
+            if not _is_cand_count(x, count_names, cand_names):
                 continue
             if isinstance(x, ast.Name) and isinstance(parents.get(x), ast.Assign) and x in parents[x].targets:
                 continue
